@@ -159,6 +159,19 @@ let handle (line : string) : string =
        | Inl parts ->
            "ok " ^ enc_list (fun g -> Printf.sprintf "%s:%s%s%s%s%s" (enc_str g.gp_text) (enc_bool g.gp_magic) (enc_bool g.gp_gstar)
                                         (enc_bool g.gp_gstarlong) (enc_bool g.gp_dironly) (enc_bool g.gp_drive)) parts)
+  | ["realpath"; follow; root; filename; tbl; incl; excl] ->
+      (* tbl: path=K;... (K in f d D F x = file, dir, link to dir, link to file, dangling link)
+         incl/excl: pattern,pattern with pattern = res/res (answer on the name, on the name + `/`);
+         res = N (no match) | e (no groups) | g+g+... with g = - | a:b *)
+      let split c s = if s = "" || s = "[]" then [] else String.split_on_char c s in
+      let kind_of = function "f" -> KFile | "d" -> KDir | "D" -> KLinkDir | "F" -> KLinkFile | "x" -> KDangling | _ -> failwith "kind" in
+      let tb = List.map (fun e -> match String.split_on_char '=' e with [k; v] -> (dec_str k, kind_of v) | _ -> failwith "tbl") (split ';' tbl) in
+      let zi s = z_of_int (int_of_string s) in
+      let res s = if s = "N" then None else if s = "e" then Some [] else
+          Some (List.map (fun g -> if g = "-" then None else
+                  (match String.split_on_char ':' g with [a; b] -> Some (zi a, zi b) | _ -> failwith "grp")) (String.split_on_char '+' s)) in
+      let pats s = List.map (fun e -> match String.split_on_char '/' e with [a; b] -> (res a, res b) | _ -> failwith "pat") (split ',' s) in
+      enc_bool (run_realpath tb (dec_str filename) (pats incl) (pats excl) (dec_bool follow) (dec_str root))
   | ["escape"; isb; p] -> enc_str (escape (dec_bool isb) (dec_str p))
   | ["ismagic"; isb; fl; p] -> enc_bool (is_magic (dec_bool isb) (z_of_int (int_of_string fl)) (dec_str p))
   | ["wcwalk"; follow; aborted; root; lst; lk; vfo; vfi; mk; sk] ->
